@@ -397,6 +397,29 @@ struct PredIntOnlyFirst { // callable with (int,int) but not with (int,Empty)/(E
     bool operator()(int, int) const { return true; }
     bool operator()(int, Empty) const { return true; }
 };
+// ---- n-ary folds (round 3): pairwise common types that are not associative
+struct CycA;
+struct CycB;
+struct CycC;
+struct CycA { // implicit conversions form a cycle: B -> A, A -> C, C -> B (common_type<A,B> = A, <A,C> = C, <B,C> = B)
+    CycA() = default;
+    CycA(CycB const&) { }
+};
+struct CycC {
+    CycC() = default;
+    CycC(CycA const&) { }
+};
+struct CycB {
+    CycB() = default;
+    CycB(CycC const&) { }
+};
+struct UserL { }; // program-defined, NOT symmetric specialisations of common_type (both libraries get the same ones, see below)
+struct UserR { };
+struct UserX { };
+template <typename T>
+struct Boom { // ::value must never be instantiated (conjunction / disjunction short circuit with a non-instantiable tail)
+    static constexpr bool value = T::this_member_does_not_exist;
+};
 using FnPtr = void (*)();
 struct NoValue { }; // has no ::value (conjunction / disjunction short-circuit probes)
 enum E { e0, e1 };
@@ -411,6 +434,16 @@ inline int lam_capture_target   = 0;
 inline auto const lam_cap       = [p = &lam_capture_target](int x) { return *p + x; };
 using LambdaCap                 = decltype(lam_cap);
 } // namespace zoo
+
+// the same program-defined specialisations for both libraries: <L,R> = L, <R,L> = R (asymmetric), <L,X> = <X,L> = X, (R,X): none
+template <> struct std::common_type<zoo::UserL, zoo::UserR> { using type = zoo::UserL; };
+template <> struct std::common_type<zoo::UserR, zoo::UserL> { using type = zoo::UserR; };
+template <> struct std::common_type<zoo::UserL, zoo::UserX> { using type = zoo::UserX; };
+template <> struct std::common_type<zoo::UserX, zoo::UserL> { using type = zoo::UserX; };
+template <> struct etl::common_type<zoo::UserL, zoo::UserR> { using type = zoo::UserL; };
+template <> struct etl::common_type<zoo::UserR, zoo::UserL> { using type = zoo::UserR; };
+template <> struct etl::common_type<zoo::UserL, zoo::UserX> { using type = zoo::UserX; };
+template <> struct etl::common_type<zoo::UserX, zoo::UserL> { using type = zoo::UserX; };
 
 // exposition-only concepts of [concept.booleantestable] / [concept.equalitycomparable], transcribed with std components
 namespace stdx {
